@@ -213,6 +213,10 @@ def execute(plan, tier, seed, batch_seconds=60.0):
     t_start = time.time()
     workdir = plan.workdir
     known = load_known()
+    if tier == 'thorough':
+        for t in plan.tasks:
+            if t['kind'] == 'lemma':
+                t['cross_check'] = True       # every unsat of an E2 lemma is re-checked with cvc5
     results = run_tasks(plan.tasks, workdir, seed, preload=plan.preload, batch_seconds=batch_seconds)
     # R4: counterexamples that do not reproduce natively are model artefacts - exclude that input and re-run the condition (<= 3 rounds)
     replay_cache = {}
@@ -351,6 +355,10 @@ def execute(plan, tier, seed, batch_seconds=60.0):
         'known_findings_hit': known_hits[:40],
         'violation_details': [{'task': v['task'], 'input': v['input'], 'info': v['info']} for v in violations[:20]],
         'harness_errors': errors[:20],
+        'cross_checked_with': {'solver': 'cvc5 1.0.3 (binary) on the SMT-LIB2 rendering of each unsat lemma query (thorough tier)',
+                               'agree': sum((results.get(t['id'], {}).get('cvc5') or {}).get('agree', 0) for t in plan.tasks),
+                               'disagree': sum((results.get(t['id'], {}).get('cvc5') or {}).get('disagree', 0) for t in plan.tasks),
+                               'not_portable_or_timeout': sum((results.get(t['id'], {}).get('cvc5') or {}).get('unavailable', 0) for t in plan.tasks)},
     }
     cov.update(plan.extra_coverage)
     if plan.level == 'translation_validation':
